@@ -1,8 +1,9 @@
 From Coq Require Import ExtrOcamlBasic.
-From HV Require Import Base.Res Base.Str Base.IssueTypes Gen.ErrorCodes Model.Issues.
+From HV Require Import Base.Res Base.Str Base.IssueTypes Gen.ErrorCodes Model.Issues Model.IssuePaths.
 Extraction Language OCaml.
 Extraction "../ocaml/build/c12_model.ml"
   force_types code_is_fixed kind_table sev_error sev_warning default_sort_list int_sort_list ckey_name
   format_error format_error_with_context push_error_context pop_error_context
   add_context_and_filter validate filter_issues_by_severity check_for_any_errors
-  sort_issues get_keys export issue_py replace_tag_references json_ok py_code py_items.
+  sort_issues get_keys export issue_py replace_tag_references json_ok py_code py_items
+  sidecar_validate table_validate table_validate_gen gate_nonempty onset_processed.
